@@ -37,9 +37,22 @@ example : ∃ r x, number [45, 49, 50, 46, 53, 48, 101, 45, 51, 44] = .ok r ∧ 
   refine ⟨_, _, rfl, rfl, ?_⟩
   decide
 
-example : ∃ r x, number [48, 46, 53, 101, 49] = .ok r ∧ r.exp = some x ∧ x.alloc = 2 ∧ x.writes = [(0, 46), (1, 53), (1, 0)] := by
-  refine ⟨_, _, rfl, rfl, ?_⟩
-  decide
+example (h : Generated.lyjsonExpLeadingZeroFixed = false) :
+    ∃ r x, number [48, 46, 53, 101, 49] = .ok r ∧ r.exp = some x ∧ x.alloc = 2 ∧ x.writes = [(0, 46), (1, 53), (1, 0)] := by
+  have hc : compose [48, 46, 53, 101, 49] (prep [48, 46, 53, 101, 49] 3 (expVal [48, 46, 53, 101, 49] 3)) =
+      composeB2orig [48, 46, 53, 101, 49] (prep [48, 46, 53, 101, 49] 3 (expVal [48, 46, 53, 101, 49] 3)) := by
+    unfold compose; rw [h]; rfl
+  refine ⟨{ value := [46], consumed := 5, dyn := true, exp := some { bufLen := 1, writes := [(0, 46), (1, 53), (1, 0)], lens := [1] } }, _, ?_, rfl, rfl, rfl⟩
+  have hn : number [48, 46, 53, 101, 49] = (match expNumber [48, 46, 53, 101, 49] 3 with
+      | .error x => .error x
+      | .ok r => .ok { value := r.value, consumed := 5, dyn := true, exp := some r }) := by rfl
+  rw [hn]
+  have he : expNumber [48, 46, 53, 101, 49] 3 = .ok { bufLen := 1, writes := [(0, 46), (1, 53), (1, 0)], lens := [1] } := by
+    unfold expNumber
+    simp only [hc]
+    rfl
+  rw [he]
+  rfl
 
 /-- **`ly_getutf8` never reads past the terminator.**  The instrumented reader computes exactly `Utf8.getUtf8`, and
     every index it reads is preceded by non-NUL bytes only; so on a NUL-terminated buffer no read index exceeds the
